@@ -93,7 +93,7 @@ class ResourceProtector(_ResourceProtector):
         # the signature base string is built from the URI as it was requested
         uri = iri_to_uri(_req.url)
         req = self.validate_request(
-            _req.method, uri, _req.form.to_dict(flat=True), _req.headers
+            _req.method, uri, list(_req.form.items(multi=True)), _req.headers
         )
         g.authlib_server_oauth1_credential = req.credential
         return req.credential
